@@ -633,7 +633,13 @@ func cmdCheck(args []string) {
 	ev["violations"] = nViol
 	os.MkdirAll(filepath.Join(*verif, "evidence"), 0755)
 	eb, _ := json.MarshalIndent(ev, "", " ")
-	os.WriteFile(filepath.Join(*verif, "evidence", id+".json"), eb, 0644)
+	evName := id + ".json"
+	if *only != "" || *repo != "/repo" || os.Getenv("GOSYM_TIMEOUT_MS") != "" {
+		// a partial or diagnostic run (one harness, another tree, another
+		// timeout) must not replace the evidence of the registered command
+		evName = id + ".partial.json"
+	}
+	os.WriteFile(filepath.Join(*verif, "evidence", evName), eb, 0644)
 
 	if nViol > 0 {
 		exit = 1
